@@ -158,12 +158,36 @@ def lock_release(ctx):
     ks = litset(disj(lk)) if lk is not None else set()
     allowed = {str(fifos[0]) + ".source.valid", str(bufs[0]) + ".source.valid", str(fifos[0]) + ".level"} if fifos and bufs else set()
     ob.instance("bank lock", sorted(ks))
+    both = {str(fifos[0]) + ".source.valid", str(bufs[0]) + ".source.valid"} if fifos and bufs else set()
+    if both and not both <= ks:
+        ob.refute("lock-gap", "req.lock is %s: it does not cover both queue stages' valid (%s), so it can drop while a command is still queued; the arbiter then "
+                  "re-arbitrates and the queued command's data strobe goes to another port - the accepted command never gets its data" % (sorted(ks), sorted(both)), None)
     if not ks or not ks <= allowed:
         ob.refute("lock-extra", "req.lock depends on %s: it may stay high after the queue has drained, locking the master out of other banks" %
                   sorted(ks - allowed), None)
 
 
+def gate_triggers(ctx):
+    ob = ctx.ob("C05.5", "timing gates are triggered only by ACCEPTED commands (fire = valid & ready): a gate triggered by a command that is merely "
+                         "presented can keep itself closed for ever (shared with the trigger clauses of C03.2 / C03.5)", 6)
+    from ..report import Ctx
+    from . import c03
+    sub = Ctx("C03", ctx.tier, ctx.seed, ctx.repo)
+    c03.bm_gates(sub)
+    c03.mux_gates(sub)
+    for o in sub.obligations:
+        for i in o.instances:
+            if "trigger" in i["what"]:
+                ob.instance(o.oid + ": " + i["what"], i["detail"])
+        for r in o.refutations:
+            if "trigger" in r["key"]:
+                ob.refute(o.oid + ":" + r["key"], r["msg"], None)
+        for u in o.unknowns:
+            ob.unknown(u)
+
+
 def run(ctx):
+    gate_triggers(ctx)
     dead_ends(ctx)
     anti_starvation(ctx)
     arbiters(ctx)
